@@ -163,6 +163,7 @@ def run(pid, tier, seed, replay, t0):
     samples = []
     traces = 0
     per_profile = []
+    drifts = []
 
     jobs = []
     if replay:
@@ -206,7 +207,12 @@ def run(pid, tier, seed, replay, t0):
             for k, v in st.items():
                 if isinstance(v, int) and k not in ("seed",):
                     agg[k] = agg.get(k, 0) + v
-        per_profile.append({"source": label, "events": n_ev, "tlc_states": res["states"],
+        for d in res["drift"]:
+            d["source"] = label
+            drifts.append(d)
+            if len(drifts) <= 10:
+                log("DRIFT property=%s source=%s event=%s fields=%s run=%d seq=%d" % (pid, label, d["ev"], ",".join(d["fields"]), d["run"], d["seq"]))
+        per_profile.append({"source": label, "events": n_ev, "tlc_states": res["states"], "drift": len(res["drift"]),
                             "violations_all_properties": sum(len(v["names"]) for v in res["violations"])})
         if len(samples) < 3 and len(evs) > 30:
             k = min(len(evs) - 1, 25 + 7 * len(samples))
@@ -290,6 +296,9 @@ def run(pid, tier, seed, replay, t0):
         "executions": n_runs,
         "impl_events_judged_by_tlc": total_events,
         "antecedent_counters": agg,
+        "conformance_divergences": len(drifts),
+        "conformance_divergence_samples": drifts[:5],
+        "conformance_note": "every event's successor is also computed by spec/Node.tla+RawNodeOps.tla from the previous implementation state and compared field by field with the projected implementation state (DRIFT lines); drift is not a violation",
         "per_source": per_profile,
         "model_checking": mc_cov,
     }
